@@ -26,7 +26,18 @@ def generate(defn, cse, k, max_dt, decl, namespace="fv"):
     gen = cpp._generate_ekf_function_bodies("generated/fv_filter.h", namespace, model, pn, sensors, sn, cm, cfg)
     header = "\n".join(cpp.header_from_ast(generator=gen))
     source = "\n".join(cpp.source_from_ast(generator=gen))
+    # rendering again from the same generator object must give the same text
+    global LAST_RERENDER
+    try:
+        h2 = "\n".join(cpp.header_from_ast(generator=gen))
+        s2 = "\n".join(cpp.source_from_ast(generator=gen))
+        LAST_RERENDER = {"header_same": h2 == header, "source_same": s2 == source}
+    except Exception as e:  # noqa
+        LAST_RERENDER = {"header_same": False, "source_same": False, "raised": type(e).__name__ + ": " + str(e)[:200]}
     return header, source
+
+
+LAST_RERENDER = None
 
 
 def hexf(x):
@@ -115,8 +126,14 @@ def run_job(job, workroot):
     defn = job["defn"]
     out = {}
     header, source = generate(defn, job["cse"], job.get("k"), job.get("max_dt", 0.1), job.get("decl"))
+    import re as _re
+    mk = _re.search(r"static constexpr double innovation_filtering\s*=\s*([^;]+);", header)
+    out["emitted_k"] = mk.group(1).strip() if mk else None
+    mm = _re.search(r"static constexpr double max_dt_sec\s*=\s*([^;]+);", header)
+    out["emitted_max_dt"] = mm.group(1).strip() if mm else None
     out["header_sha"] = hashlib.sha256(header.encode()).hexdigest()
     out["source_sha"] = hashlib.sha256(source.encode()).hexdigest()
+    out["rerender"] = LAST_RERENDER
     if job.get("keep_text"):
         out["header"], out["source"] = header, source
     if job.get("only_generate"):
